@@ -83,6 +83,20 @@ def _verify_one(args):
                 obligations=len(ex.obls), paths=ex.n_paths, notes=ex.notes)
     info['used_spec_lemmas'] = sorted(getattr(ex, 'used_specs', ()))
     info['vacuity'] = list(getattr(ex, 'vacuity', []))
+    if both:
+        # thorough tier: the hypotheses of a discharged obligation must not be refutable on their own (a contradictory context, or a
+        # solver that wrongly answers unsat -- pyvc/selftest/solver/ holds one such input for z3 4.8.12 and 5.1.0 -- would discharge anything).
+        # Obligations whose goal is literally False are claims that a path is infeasible: there the hypotheses are meant to be refutable.
+        import z3 as _z3
+        seen_ = {}
+        for o in ex.obls:
+            if o.result != 'proved' or _z3.is_false(o.goal): continue
+            key_ = tuple(h.get_id() for h in o.hyps)
+            if key_ not in seen_:
+                s_ = _z3.Solver(); s_.set('timeout', int(os.environ.get('PYVC_HYPS_MS', '400'))); s_.add(*o.hyps)
+                seen_[key_] = (s_.check() == _z3.unsat)
+            if seen_[key_]: info['vacuity'].append('the hypotheses of %s are refutable on their own' % o.name)
+        info['hyps_checked'] = len(seen_)
     return dict(info=info, obls=[ObRec(o) for o in ex.obls], assumptions=list(REG.assumptions))
 
 def _mutant_one(args):
